@@ -360,18 +360,38 @@ func safeCheck[C any](c *Ctx, check func(c *Ctx, cases []C) []Outcome, cases []C
 	if p == nil {
 		return o
 	}
+	// bisect: halves that do not panic are checked in one piece; after a few attributed panics the rest of
+	// the batch is left unchecked (the run is a failure anyway and single-case re-runs are expensive)
 	outs = make([]Outcome, len(cases))
-	for i := range cases {
-		oi, pi, st := run(cases[i : i+1])
-		if pi != nil {
+	budget := 6
+	var rec func(lo, hi int)
+	rec = func(lo, hi int) {
+		if budget <= 0 {
+			for i := lo; i < hi; i++ {
+				outs[i] = Outcome{Key: fmt.Sprintf("unchecked-after-panics-%d", i), Buckets: []string{"unchecked-after-panics"}}
+			}
+			return
+		}
+		oi, pi, st := run(cases[lo:hi])
+		if pi == nil {
+			if len(oi) == hi-lo {
+				copy(outs[lo:hi], oi)
+			}
+			return
+		}
+		if hi-lo == 1 {
+			budget--
 			if len(st) > 1500 {
 				st = st[:1500]
 			}
-			outs[i] = Outcome{Key: fmt.Sprintf("panic-case-%d", i), Nontrivial: true, Fail: &Failure{Kind: "impl-violation", Key: "panic",
+			outs[lo] = Outcome{Key: fmt.Sprintf("panic-case-%d", lo), Nontrivial: true, Fail: &Failure{Kind: "impl-violation", Key: "panic",
 				Summary: fmt.Sprintf("the code under test panicked while this case was checked: %v", pi), Expected: "no panic", Got: fmt.Sprint(pi) + "\n" + st}}
-		} else if len(oi) == 1 {
-			outs[i] = oi[0]
+			return
 		}
+		mid := (lo + hi) / 2
+		rec(lo, mid)
+		rec(mid, hi)
 	}
+	rec(0, len(cases))
 	return outs
 }
